@@ -57,8 +57,10 @@ def main():
         demo = os.path.join(d, "demo.py")
         env = dict(os.environ, PYTHONDONTWRITEBYTECODE="1")
         if os.path.exists(demo):
-            shutil.copy(demo, os.path.join(wt, "_demo.py"))
-            rc, so, se = sh(["/venv/bin/python", "-B", "_demo.py"], cwd=wt,
+            os.makedirs(os.path.join(wt, "_deliver"), exist_ok=True)
+            shutil.copy(demo, os.path.join(wt, "_deliver", "demo.py"))
+            rc, so, se = sh(["/venv/bin/python", "-B", "_deliver/demo.py"],
+                            cwd=wt,
                             env=env, timeout=900)
             res["demo_without_change_rc"] = rc
         rc, so, se = sh(["git", "-C", wt, "apply",
@@ -69,8 +71,8 @@ def main():
             return 2
         res["patch_applies"] = True
         if os.path.exists(demo):
-            rc, so, se = sh(["/venv/bin/python", "-B", "_demo.py"], cwd=wt,
-                            env=env, timeout=900)
+            rc, so, se = sh(["/venv/bin/python", "-B", "_deliver/demo.py"],
+                            cwd=wt, env=env, timeout=900)
             res["demo_with_change_rc"] = rc
             res["demo_tail"] = (so + se)[-400:]
         tp = None
